@@ -16,7 +16,7 @@ structure Sane (find : Nat → Option Span) (len : Nat) : Prop where
 
 /-- the closure `find_iter_at_in_context` hands to `find_iter_at`, with the recording callback inlined -/
 def step (re : Nat) (atEnd : Bool) : List Span → Span → List Span × Bool :=
-  fun acc m => if beyondRange re atEnd m.s then (acc, false) else (acc ++ [m], true)
+  fun acc m => if beyondRange re atEnd m.s then (acc, false) else (acc ++ [⟨m.s, min m.e re⟩], true)
 
 theorem beyondRange_false_iff (re : Nat) (atEnd : Bool) (s : Nat) :
     beyondRange re atEnd s = false ↔ (s < re ∨ (atEnd = true ∧ s = re)) := by
@@ -25,7 +25,7 @@ theorem beyondRange_false_iff (re : Nat) (atEnd : Bool) (s : Nat) :
 
 theorem step_cases (re : Nat) (atEnd : Bool) (acc : List Span) (m : Span) :
     (step re atEnd acc m = (acc, false)) ∨
-    (step re atEnd acc m = (acc ++ [m], true) ∧ (m.s < re ∨ (atEnd = true ∧ m.s = re))) := by
+    (step re atEnd acc m = (acc ++ [⟨m.s, min m.e re⟩], true) ∧ (m.s < re ∨ (atEnd = true ∧ m.s = re))) := by
   unfold step
   cases hb : beyondRange re atEnd m.s with
   | true => left; simp
@@ -86,7 +86,7 @@ theorem iterGo_prefix (find : Nat → Option Span) (len re : Nat) (atEnd : Bool)
       | none => exact ⟨[], by simp⟩
       | some m =>
         simp only
-        have hstep : (step re atEnd acc m = (acc, false)) ∨ (step re atEnd acc m = (acc ++ [m], true)) := by
+        have hstep : (step re atEnd acc m = (acc, false)) ∨ (step re atEnd acc m = (acc ++ [⟨m.s, min m.e re⟩], true)) := by
           rcases step_cases re atEnd acc m with h | ⟨h, _⟩
           · exact Or.inl h
           · exact Or.inr h
@@ -99,20 +99,21 @@ theorem iterGo_prefix (find : Nat → Option Span) (len re : Nat) (atEnd : Bool)
             · rw [hs]; exact ⟨[], by simp⟩
             · rw [hs]
               simp only [↓reduceIte]
-              obtain ⟨t, ht⟩ := ih (m.e + 1) (some m.e) (acc ++ [m])
-              exact ⟨m :: t, by rw [ht]; simp⟩
+              obtain ⟨t, ht⟩ := ih (m.e + 1) (some m.e) (acc ++ [⟨m.s, min m.e re⟩])
+              exact ⟨⟨m.s, min m.e re⟩ :: t, by rw [ht]; simp⟩
         · simp only [h1, Bool.false_eq_true, ↓reduceIte]
           rcases hstep with hs | hs
           · rw [hs]; exact ⟨[], by simp⟩
           · rw [hs]
             simp only [↓reduceIte]
-            obtain ⟨t, ht⟩ := ih m.e (some m.e) (acc ++ [m])
-            exact ⟨m :: t, by rw [ht]; simp⟩
+            obtain ⟨t, ht⟩ := ih m.e (some m.e) (acc ++ [⟨m.s, min m.e re⟩])
+            exact ⟨⟨m.s, min m.e re⟩ :: t, by rw [ht]; simp⟩
 
 /-- Invariant of everything that is collected, for a sane matcher: it starts at or after the start of the
-range, is well-formed, lies inside the haystack and starts before `re` (or exactly at `re` under `atEnd`). -/
+range, is well-formed, lies inside the haystack and inside the range (its end is clamped to `re`), and starts
+before `re` (or exactly at `re` under `atEnd`). -/
 def Collected (len rs re : Nat) (atEnd : Bool) (m : Span) : Prop :=
-  rs ≤ m.s ∧ m.s ≤ m.e ∧ m.e ≤ len ∧ (m.s < re ∨ (atEnd = true ∧ m.s = re))
+  rs ≤ m.s ∧ m.s ≤ m.e ∧ m.e ≤ len ∧ m.e ≤ re ∧ (m.s < re ∨ (atEnd = true ∧ m.s = re))
 
 theorem iterGo_collected (find : Nat → Option Span) (len rs re : Nat) (atEnd : Bool) (hs : Sane find len) :
     ∀ fuel lastEnd lastMatch acc, rs ≤ lastEnd → (∀ m ∈ acc, Collected len rs re atEnd m) →
@@ -134,13 +135,14 @@ theorem iterGo_collected (find : Nat → Option Span) (len rs re : Nat) (atEnd :
         have hme := hs.le le m hf
         have hb := hs.bound le m hf
         have hstep := step_cases re atEnd acc m
-        have hnew : ∀ x ∈ acc ++ [m], (m.s < re ∨ (atEnd = true ∧ m.s = re)) → Collected len rs re atEnd x := by
+        have hnew : ∀ x ∈ acc ++ [⟨m.s, min m.e re⟩], (m.s < re ∨ (atEnd = true ∧ m.s = re)) →
+            Collected len rs re atEnd x := by
           intro x hx hcond
           rcases List.mem_append.mp hx with hx | hx
           · exact hacc x hx
           · simp only [List.mem_singleton] at hx
             subst hx
-            exact ⟨by omega, hme, hb, hcond⟩
+            refine ⟨by simp only; omega, by simp only; omega, by simp only; omega, by simp only; omega, hcond⟩
         by_cases h1 : (m.s == m.e) = true
         · simp only [h1, ↓reduceIte]
           by_cases h2 : (some m.e == lm) = true
@@ -173,13 +175,13 @@ theorem findIterInContext_head (sc : SCfg) (find : Oracle) (bytes : Bytes) (rs r
     (hrs : rs ≤ (cutHaystack sc bytes re).length)
     (hf : find (cutHaystack sc bytes re) rs = some m)
     (hin : m.s < re ∨ (isAtUnterminatedEnd sc.lt (cutHaystack sc bytes re) rs re = true ∧ m.s = re)) :
-    ∃ t, findIterInContext sc find bytes rs re = m :: t := by
+    ∃ t, findIterInContext sc find bytes rs re = ⟨m.s, min m.e re⟩ :: t := by
   rw [findIterInContext_eq]
   have hfuel : (cutHaystack sc bytes re).length + 2 = ((cutHaystack sc bytes re).length + 1) + 1 := rfl
   rw [hfuel, iterGo_succ]
   have hnot : ¬ rs > (cutHaystack sc bytes re).length := by omega
   simp only [hnot, ↓reduceIte, hf]
-  have hstep : step re (isAtUnterminatedEnd sc.lt (cutHaystack sc bytes re) rs re) [] m = ([m], true) := by
+  have hstep : step re (isAtUnterminatedEnd sc.lt (cutHaystack sc bytes re) rs re) [] m = ([⟨m.s, min m.e re⟩], true) := by
     unfold step
     rw [(beyondRange_false_iff re _ m.s).mpr hin]
     rfl
@@ -189,12 +191,12 @@ theorem findIterInContext_head (sc : SCfg) (find : Oracle) (bytes : Bytes) (rs r
     simp only [h2, Bool.false_eq_true, ↓reduceIte, hstep]
     obtain ⟨t, ht⟩ := iterGo_prefix (find (cutHaystack sc bytes re)) (cutHaystack sc bytes re).length re
       (isAtUnterminatedEnd sc.lt (cutHaystack sc bytes re) rs re) ((cutHaystack sc bytes re).length + 1) (m.e + 1)
-      (some m.e) [m]
+      (some m.e) [⟨m.s, min m.e re⟩]
     exact ⟨t, by rw [ht]; rfl⟩
   · simp only [h1, Bool.false_eq_true, ↓reduceIte, hstep]
     obtain ⟨t, ht⟩ := iterGo_prefix (find (cutHaystack sc bytes re)) (cutHaystack sc bytes re).length re
       (isAtUnterminatedEnd sc.lt (cutHaystack sc bytes re) rs re) ((cutHaystack sc bytes re).length + 1) m.e
-      (some m.e) [m]
+      (some m.e) [⟨m.s, min m.e re⟩]
     exact ⟨t, by rw [ht]; rfl⟩
 
 end RgVerif.Lemmas.PrinterIter
